@@ -1,11 +1,13 @@
 import N0Verif.Proofs.XPathCreate
 import N0Verif.Proofs.XPathHistory
 import N0Verif.Proofs.XPathCreate2
+import N0Verif.Proofs.XPathPureApi
 /-!
 # C03 — assigning to a missing xpath creates exactly the missing chain; `new()` appends
 
 `setItem` is the model of `__setitem__` (with `_add`); it returns the tree after the call and
-whether the call raised — a failing creation leaves what it had already inserted.
+whether the call raised — a refused creation takes back what `_add` had already inserted (fix C03-a).
+The model follows the code with the fix patches C03-a, C03-b, C03-c applied.
 
 Reference semantics: `Val.setAt t p x` ("the original with exactly the slot `p` replaced/inserted"),
 `chain ns v` (nested dictionaries for a chain of names), `appendTo old x` (a list gets one more
@@ -158,33 +160,35 @@ theorem C03_read_back_elem (cls : Cls) (kvs : List (Str × Val)) (q : Pos) (kcls
       (slash ++ renderPos q ++ slash ++ (name ++ bracket sLast) ++ renderPos (tail.map Seg.key)) = (t', .ok v) :=
   readback_elem cls kvs q kcls nkvs name c ys tail v t' fuel hp hget hn ht hset hf
 
-/-! ## 5. every path of the honoured grammar `G_ok` -/
+/-! ## 5. every path of the creation grammar -/
 
-/-- **unhypothesised statement (every path of `G_ok`).**  `steps` is a creation path below the
-existing node `cur` at `q`: the first step may be a fresh name, `n[new()]` (fresh or existing `n`),
-`n[0]` (fresh), `n[len]`, or — below a list — `[new()]`/`[len]`; later steps are fresh names,
-`n[new()]`, `n[0]`; every element-creating step is last or followed by a name.  Then `d[path] = v`
-yields exactly `createIn`.
+/-- **full statement (every creation path).**  `steps` is a creation path below the existing node
+`cur` at `q`: the first step may be a fresh name, `n[new()]` (fresh or existing `n`), `n[0]` (fresh),
+`n[len]`, or — below a list — `[new()]`/`[len]`; later steps are fresh names, `n[new()]`, `n[0]` and
+(after an element-creating step) `[new()]`, `[0]` (`CStep.laterW`), in any order and number — `GW` only
+asks that a bare index step is not written directly after a *name* step (that text is the step `n[e]`).
+Then `d[path] = v` yields exactly `createIn` and nothing raises.
 
-**False as it stands** (`C03_create_stmt_false`): a bare `[new()]` below a list that is an element of
-a *plain* `list` raises `TypeError` (finding C03-c, in general form `C03_new_in_plain_list_raises`).
-With exactly that case excluded the statement is proved: `C03_create`. -/
+Proved: `C03_create_full`.  (Before the fixes the statement had to exclude element-creating steps that
+follow one another — findings C03-a/C03-b — and a bare `[new()]` below an element of a plain `list` —
+finding C03-c.) -/
 def C03_create_stmt : Prop :=
   ∀ (cls : Cls) (kvs : List (Str × Val)) (q : Pos) (cur cur' : Val) (s : CStep) (steps : List CStep) (v t' : Val),
-    PlainPos q → getAt (.dict cls kvs) q = some cur → s.first → (∀ x ∈ steps, x.later) → GOk (s :: steps) →
+    PlainPos q → getAt (.dict cls kvs) q = some cur → s.first → (∀ x ∈ steps, x.laterW) → GW (s :: steps) →
     createIn cur (s :: steps) v = some cur' → setAt (.dict cls kvs) q cur' = some t' →
     ∃ n, ∀ fuel ≥ n,
       setItem fuel (.dict cls kvs) (slash ++ renderPos q ++ (s :: steps).flatMap renderCStep) v = (t', .ok ())
 
-/-- **C03 (honoured grammar, first step below a dict), proved.**  The full statement for every
+/-- **C03 (first step below a dict, later steps without bare indexes).**  The full statement for every
 creation path whose first step is a name step or a named element-creating step (`cur` is then a
-dict): names become nested dictionaries, every `n[new()]`/`n[0]`/`n[len]` appends exactly one
-element (creating the list, or wrapping a non-list value as first element), in any alternation the
-grammar allows and of any length — the result is exactly `createIn`. -/
+dict) and whose later steps are fresh names / `n[new()]` / `n[0]`: names become nested dictionaries,
+every `n[new()]`/`n[0]`/`n[len]` appends exactly one element (creating the list, or wrapping a non-list
+value as first element), in any order and of any length — the result is exactly `createIn`.
+(Special case of `C03_create`; kept because the read-back theorems are stated for these paths.) -/
 theorem C03_create_partial (cls : Cls) (kvs : List (Str × Val)) (q : Pos) (kcls : Cls) (nkvs : List (Str × Val))
     (s : CStep) (steps : List CStep) (v cur' t' : Val) (fuel : Nat)
     (hp : PlainPos q) (hget : getAt (.dict cls kvs) q = some (.dict kcls nkvs))
-    (hfirst : s.first) (hidx : ∀ e, s ≠ .idx e) (hsteps : ∀ x ∈ steps, x.later) (hg : GOk (s :: steps))
+    (hfirst : s.first) (hidx : ∀ e, s ≠ .idx e) (hsteps : ∀ x ∈ steps, x.later)
     (hcreate : createIn (.dict kcls nkvs) (s :: steps) v = some cur')
     (hset : setAt (.dict cls kvs) q cur' = some t') (hf : fuel ≥ 4 * (q.length + 1)) :
     setItem fuel (.dict cls kvs) (slash ++ renderPos q ++ (s :: steps).flatMap renderCStep) v = (t', .ok ()) := by
@@ -193,87 +197,58 @@ theorem C03_create_partial (cls : Cls) (kvs : List (Str × Val)) (q : Pos) (kcls
     | name n => exact hfirst
     | elem n e => exact hfirst
     | idx e => exact absurd rfl (hidx e)
-  exact setItem_create_steps cls kvs q kcls nkvs s steps v cur' t' fuel hp hget hs hidx hsteps hg hcreate hset hf
+  exact setItem_create_steps cls kvs q kcls nkvs s steps v cur' t' fuel hp hget hs hidx hsteps hcreate hset hf
 
 /-- the reference result always exists once `createIn` is defined (the node at `q` exists) -/
 theorem C03_create_total (t : Val) (q : Pos) (cur cur' : Val) (hget : getAt t q = some cur) :
     ∃ t', setAt t q cur' = some t' := setAt_isSome q t cur cur' hget
 
-/-- **`[new()]` below a list that is an element of an `n0list`** (optionally followed by later steps):
-exactly one element is appended to the addressed list. -/
-theorem C03_append_new_in_n0list (cls : Cls) (kvs : List (Str × Val)) (q0 : Pos) (i : Nat) (ys : List Val)
-    (c : Cls) (xs : List Val) (steps : List CStep) (v t' : Val) (fuel : Nat)
-    (hp : PlainPos q0) (hq0 : getAt (.dict cls kvs) q0 = some (.list .n0 ys)) (hi : ys[i]? = some (.list c xs))
-    (hsteps : ∀ x ∈ steps, x.later) (hg : GOk (.idx sNew :: steps))
-    (hset : setAt (.dict cls kvs) (q0 ++ [.idx i]) (.list c (xs ++ [fill steps v])) = some t')
-    (hf : fuel ≥ 4 * (q0.length + 2)) :
-    setItem fuel (.dict cls kvs)
-      (slash ++ renderPos (q0 ++ [.idx i]) ++ (CStep.idx sNew :: steps).flatMap renderCStep) v = (t', .ok ()) :=
-  setItem_create_idx_in_list cls kvs q0 i .n0 ys c xs sNew steps v t' fuel hp hq0 hi (Or.inl rfl) (fun _ => rfl)
-    hsteps hg hset hf
-
-/-- **`[len]` below a list that is an element of any list** (plain or `n0list`): exactly one element
-is appended (no second lookup through the enclosing list is made on this branch). -/
-theorem C03_len_in_list (cls : Cls) (kvs : List (Str × Val)) (q0 : Pos) (i : Nat) (c0 : Cls) (ys : List Val)
-    (c : Cls) (xs : List Val) (steps : List CStep) (v t' : Val) (fuel : Nat)
+/-- **`[new()]` / `[len]` below a list that is an element of a list** — plain `list` or `n0list`
+(fix C03-c) — optionally followed by later steps: exactly one element is appended to the addressed list. -/
+theorem C03_append_in_list (cls : Cls) (kvs : List (Str × Val)) (q0 : Pos) (i : Nat) (c0 : Cls) (ys : List Val)
+    (c : Cls) (xs : List Val) (e : Str) (steps : List CStep) (v t' : Val) (fuel : Nat)
     (hp : PlainPos q0) (hq0 : getAt (.dict cls kvs) q0 = some (.list c0 ys)) (hi : ys[i]? = some (.list c xs))
-    (hsteps : ∀ x ∈ steps, x.later) (hg : GOk (.idx (natStr xs.length) :: steps))
+    (he : e = sNew ∨ e = natStr xs.length)
+    (hsteps : ∀ x ∈ steps, x.laterW) (hg : GW (.idx e :: steps))
     (hset : setAt (.dict cls kvs) (q0 ++ [.idx i]) (.list c (xs ++ [fill steps v])) = some t')
     (hf : fuel ≥ 4 * (q0.length + 2)) :
     setItem fuel (.dict cls kvs)
-      (slash ++ renderPos (q0 ++ [.idx i]) ++ (CStep.idx (natStr xs.length) :: steps).flatMap renderCStep) v
-        = (t', .ok ()) :=
-  setItem_create_idx_in_list cls kvs q0 i c0 ys c xs _ steps v t' fuel hp hq0 hi (Or.inr rfl)
-    (fun h => absurd h (natStr_ne_new _)) hsteps hg hset hf
+      (slash ++ renderPos (q0 ++ [.idx i]) ++ (CStep.idx e :: steps).flatMap renderCStep) v = (t', .ok ()) :=
+  setItem_create_idx_in_list cls kvs q0 i c0 ys c xs e steps v t' fuel hp hq0 hi he hsteps hg hset hf
 
-/-- **finding C03-c in general.**  `[new()]` directly below a list that is an element of a *plain*
-`list` raises `TypeError` — for every tree, depth and continuation — and leaves the tree as it was
-(`parent["[i]"]` is an xpath lookup only on an `n0list`). -/
-theorem C03_new_in_plain_list_raises (cls : Cls) (kvs : List (Str × Val)) (q0 : Pos) (i : Nat) (ys : List Val)
-    (c : Cls) (xs : List Val) (steps : List CStep) (v : Val) (fuel : Nat)
-    (hp : PlainPos q0) (hq0 : getAt (.dict cls kvs) q0 = some (.list .plain ys)) (hi : ys[i]? = some (.list c xs))
-    (hsteps : ∀ x ∈ steps, x.later) (hf : fuel ≥ 4 * (q0.length + 2)) :
-    setItem fuel (.dict cls kvs)
-      (slash ++ renderPos (q0 ++ [.idx i]) ++ (CStep.idx sNew :: steps).flatMap renderCStep) v
-        = (.dict cls kvs, .error .TypeError) :=
-  setItem_new_in_plain_list_raises cls kvs q0 i ys c xs steps v fuel hp hq0 hi hsteps hf
-
-/-- **C03 (every path of the honoured grammar).**  The statement `C03_create_stmt` with exactly one
-hypothesis added: when the first step is a bare `[new()]`, no plain `list` directly encloses the
-target list (`PlainListEncloses t q`: `q = q0 ++ [i]` and the node at `q0` is a plain `list`).
-First step: fresh name, `n[new()]`, `n[0]`, `n[len]` below a dict, `[new()]`/`[len]` below a list
-(held by a key, or an element of an enclosing list); later steps: fresh names, `n[new()]`, `n[0]`
-in any alternation the grammar allows.  The result is exactly `createIn`; nothing raises. -/
+/-- **C03 (every creation path).**  First step: fresh name, `n[new()]`, `n[0]`, `n[len]` below a dict,
+`[new()]`/`[len]` below a list (held by a key, or an element of an enclosing list of either class);
+later steps: fresh names, `n[new()]`, `n[0]`, `[new()]`, `[0]` in any order (`GW`: no bare index written
+directly after a name step).  The result is exactly `createIn`; nothing raises.  No hypothesis beyond
+those of `C03_create_stmt`. -/
 theorem C03_create (cls : Cls) (kvs : List (Str × Val)) (q : Pos) (cur cur' : Val) (s : CStep) (steps : List CStep)
     (v t' : Val) (fuel : Nat)
     (hp : PlainPos q) (hget : getAt (.dict cls kvs) q = some cur) (hfirst : s.first)
-    (hsteps : ∀ x ∈ steps, x.later) (hg : GOk (s :: steps))
+    (hsteps : ∀ x ∈ steps, x.laterW) (hg : GW (s :: steps))
     (hcreate : createIn cur (s :: steps) v = some cur') (hset : setAt (.dict cls kvs) q cur' = some t')
-    (hencl : s = .idx sNew → ¬ PlainListEncloses (.dict cls kvs) q)
     (hf : fuel ≥ 4 * (q.length + 1)) :
     setItem fuel (.dict cls kvs) (slash ++ renderPos q ++ (s :: steps).flatMap renderCStep) v = (t', .ok ()) :=
-  setItem_create_any cls kvs q cur cur' s steps v t' fuel hp hget hfirst hsteps hg hcreate hset hencl hf
+  setItem_create_any cls kvs q cur cur' s steps v t' fuel hp hget hfirst hsteps hg hcreate hset hf
 
-/-- the added hypothesis is needed: the unhypothesised statement is refuted by the witness of C03-c -/
-theorem C03_create_stmt_false : ¬ C03_create_stmt := by
-  intro h
-  obtain ⟨n, hn⟩ := h .n0 [(['x'], .list .plain [.list .plain []])] [.key ['x'], .idx 0] (.list .plain [])
-    (.list .plain [.str ['V']]) (.idx sNew) [] (.str ['V'])
-    (.dict .n0 [(['x'], .list .plain [.list .plain [.str ['V']]])])
-    ⟨⟨by simp, by decide, by simp⟩, trivial⟩ (by decide) trivial (by simp) trivial (by decide) (by decide)
-  have h1 := hn (max n 12) (Nat.le_max_left _ _)
-  have h2 := C03_new_in_plain_list_raises .n0 [(['x'], .list .plain [.list .plain []])] [.key ['x']] 0
-    [.list .plain []] .plain [] [] (.str ['V']) (max n 12) ⟨⟨by simp, by decide, by simp⟩, trivial⟩ (by decide)
-    (by decide) (by simp) (Nat.le_max_right _ _)
-  rw [show ([Seg.key ['x']] ++ [Seg.idx 0] : Pos) = [.key ['x'], .idx 0] from rfl, h1] at h2
-  cases h2
+/-- the full statement, proved -/
+theorem C03_create_full : C03_create_stmt := by
+  intro cls kvs q cur cur' s steps v t' hp hget hfirst hsteps hg hcreate hset
+  exact ⟨4 * (q.length + 1), fun fuel hf =>
+    C03_create cls kvs q cur cur' s steps v t' fuel hp hget hfirst hsteps hg hcreate hset hf⟩
+
+/-- the grammar before the fixes (`GOk`: every element-creating step last or followed by a name; no later
+bare index) is part of the whole grammar -/
+theorem C03_GOk_inside (s : CStep) (steps : List CStep) (hsteps : ∀ x ∈ steps, x.later) :
+    (∀ x ∈ steps, x.laterW) ∧ GW (s :: steps) :=
+  ⟨fun x hx => CStep.laterW_of_later (hsteps x hx), GW_of_later s steps hsteps⟩
 
 /-- **unrestricted statement (read back).**  After *any* successful `d[xpath] = v` the value reads
-back through the same path with `new()` replaced by `last()`.  Not provable in this generality: it
-quantifies over every path text, also those outside the honoured grammar (`c[new()][0]/m` of
-finding C03-b stores without raising and reads back something else) and over names that contain
-the text `new()` themselves (which `replace` rewrites).  Proved for every path of the honoured
-grammar whose names are free of `(`: `C03_read_back`. -/
+back through the same path with `new()` replaced by `last()`.  Not proved in this generality: it
+quantifies over every path text (wildcards, conditions, `..`, non-canonical spellings) and over names
+that contain the text `new()` themselves (which `replace` rewrites).  Proved for every creation path
+without later bare index steps whose names are free of `(`: `C03_read_back`, `C03_read_back_any`; paths
+with later bare indexes (`c[new()][0]/m`, which before fix C03-b stored `v` elsewhere) read back on
+the instances below and in the evaluator. -/
 def C03_read_back_stmt : Prop :=
   ∀ (t t' v : Val) (xp : Str) (fuel : Nat),
     setItem fuel t xp v = (t', .ok ()) →
@@ -319,46 +294,96 @@ paths of `C03_create_partial` in one statement. -/
 theorem C03_create_then_read (cls : Cls) (kvs : List (Str × Val)) (q : Pos) (kcls : Cls) (nkvs : List (Str × Val))
     (s : CStep) (steps : List CStep) (v cur' t' : Val) (fuel : Nat)
     (hp : PlainPos q) (hget : getAt (.dict cls kvs) q = some (.dict kcls nkvs))
-    (hfirst : s.first) (hidx : ∀ e, s ≠ .idx e) (hsteps : ∀ x ∈ steps, x.later) (hg : GOk (s :: steps))
+    (hfirst : s.first) (hidx : ∀ e, s ≠ .idx e) (hsteps : ∀ x ∈ steps, x.later)
     (hnq : NoParenPos q) (hnp : ∀ x ∈ s :: steps, NoParen x.nameOf)
     (hcreate : createIn (.dict kcls nkvs) (s :: steps) v = some cur')
     (hset : setAt (.dict cls kvs) q cur' = some t')
     (hf : fuel ≥ 4 * (q.length + 1)) (hf2 : fuel ≥ 2 * (q.length + steps.length + 1)) :
     let xp := slash ++ renderPos q ++ (s :: steps).flatMap renderCStep
     setItem fuel (.dict cls kvs) xp v = (t', .ok ()) ∧ getItem fuel t' (replace sNew sLast xp) = (t', .ok v) :=
-  ⟨C03_create_partial cls kvs q kcls nkvs s steps v cur' t' fuel hp hget hfirst hidx hsteps hg hcreate hset hf,
+  ⟨C03_create_partial cls kvs q kcls nkvs s steps v cur' t' fuel hp hget hfirst hidx hsteps hcreate hset hf,
    C03_read_back cls kvs q kcls nkvs s steps v cur' t' fuel hp hget hfirst hidx hsteps hnq hnp hcreate hset hf2⟩
 
-/-- **full statement (no misplacement / no debris).**  A creation that is refused leaves the tree
-as it was.  False on the pinned tree: see the two counter-examples. -/
+/-- **full statement (no debris).**  A `d[xpath] = v` that raises leaves the tree as it was — every tree,
+every path text, every value, every exception.  Proved: `C03_err_leaves_tree` (fix C03-a: `_add` leaves
+nothing behind; fix C04-a: the search writes nothing). -/
 def C03_err_leaves_tree_stmt : Prop :=
   ∀ (t t' v : Val) (xp : Str) (fuel : Nat) (e : PyErr), setItem fuel t xp v = (t', .error e) → t' = t
 
+/-- after a raising `d[xpath] = v` the tree is the tree before the call or the one `_find` handed to
+`_add` — whatever `_add` and the store did is gone (fix C03-a alone) -/
+theorem C03_err_tree_is_search_tree (t t' v : Val) (xp : Str) (fuel : Nat) (e : PyErr)
+    (h : setItem fuel t xp v = (t', .error e)) :
+    t' = t ∨ ∃ r, findD fuel t [] false true (tokenize (if startsWith xp ['?'] then xp.drop 1 else xp)) (.at []) true
+      slash = .ok (t', r) :=
+  setItem_error_tree fuel t xp v t' e h
+
+/-- the form of the statement that needs fix C03-a only: unchanged whenever the search returned the tree
+it was given (kept so that the two repairs stay separable; `hpure` always holds after fix C04-a) -/
+theorem C03_err_leaves_tree_partial (t t' v : Val) (xp : Str) (fuel : Nat) (e : PyErr)
+    (h : setItem fuel t xp v = (t', .error e))
+    (hpure : ∀ root1 r, findD fuel t [] false true (tokenize (if startsWith xp ['?'] then xp.drop 1 else xp)) (.at [])
+      true slash = .ok (root1, r) → root1 = t) : t' = t := by
+  rcases setItem_error_tree fuel t xp v t' e h with h1 | ⟨r, hr⟩
+  · exact h1
+  · exact hpure t' r hr
+
+/-- **C03 (a refused assignment leaves the tree unchanged), the full statement, proved**: every tree,
+every path text (creation paths of every shape, wildcards, conditions, malformed text), every value,
+every exception class. -/
+theorem C03_err_leaves_tree : C03_err_leaves_tree_stmt := by
+  intro t t' v xp fuel e h
+  refine C03_err_leaves_tree_partial t t' v xp fuel e h ?_
+  intro root1 r hfind
+  have := findD_any fuel t [] true true (tokenize (if startsWith xp ['?'] then xp.drop 1 else xp)) (.at []) slash
+  rw [hfind] at this
+  exact this.1
+
 def exTree : Val := .dict .n0 [(['a'], .dict .n0 [])]
 
-/-- C03-a: `d['a/b[new()][new()]'] = v` raises after having inserted `b: [None, []]`-style debris -/
-theorem C03_debris_cex :
+/-- former witnesses of C03-a (debris): the three paths are now honoured … -/
+theorem C03_nested_new_ok :
     setItem 40 exTree ['a', '/', 'b', '[', 'n', 'e', 'w', '(', ')', ']', '[', 'n', 'e', 'w', '(', ')', ']'] (.str ['V'])
-      = (.dict .n0 [(['a'], .dict .n0 [(['b'], .list .n0 [.none, .list .n0 []])])], .error .TypeError) := by
+      = (.dict .n0 [(['a'], .dict .n0 [(['b'], .list .n0 [.list .n0 [.str ['V']]])])], .ok ()) := by
+  decide
+example : setItem 40 exTree ['m', '[', 'n', 'e', 'w', '(', ')', ']', '/', 'n', '[', 'n', 'e', 'w', '(', ')', ']'] (.str ['V'])
+      = (.dict .n0 [(['a'], .dict .n0 []), (['m'], .list .n0 [.dict .n0 [(['n'], .list .n0 [.str ['V']])]])], .ok ()) := by
+  decide
+example : setItem 40 exTree ['n', '[', '0', ']', '[', '0', ']'] (.str ['V'])
+      = (.dict .n0 [(['a'], .dict .n0 []), (['n'], .list .n0 [.list .n0 [.str ['V']]])], .ok ()) := by
   decide
 
-theorem C03_err_leaves_tree_false : ¬ C03_err_leaves_tree_stmt := by
-  intro h
-  have := h _ _ _ _ _ _ C03_debris_cex
-  revert this; decide
+/-- … and a creation that is refused at a deeper level (`n/m[3]`: `SyntaxError` at the second level, after
+`n` had been inserted) leaves nothing behind -/
+theorem C03_refused_leaves_nothing :
+    setItem 40 exTree ['n', '/', 'm', '[', '3', ']'] (.str ['V']) = (exTree, .error .SyntaxError) := by
+  decide
+/-- the same through the theorem -/
+example : (setItem 40 exTree ['n', '/', 'm', '[', '3', ']'] (.str ['V'])).1 = exTree :=
+  C03_err_leaves_tree exTree _ (.str ['V']) ['n', '/', 'm', '[', '3', ']'] 40 .SyntaxError C03_refused_leaves_nothing
 
-/-- C03-b: `d['c[new()][0]/m'] = v` does not raise and does not store `v` under `m` -/
-theorem C03_misplaced_cex :
+/-- former witness of C03-b (silent misplacement): `d['c[new()][0]/m'] = v` now creates `c: [[{m: v}]]` -/
+theorem C03_nested_idx_ok :
     setItem 40 exTree ['c', '[', 'n', 'e', 'w', '(', ')', ']', '[', '0', ']', '/', 'm'] (.str ['V'])
-      = (.dict .n0 [(['a'], .dict .n0 []), (['c'], .list .n0 [.none, .list .n0 [.str ['V']]])], .ok ()) := by
+      = (.dict .n0 [(['a'], .dict .n0 []), (['c'], .list .n0 [.list .n0 [.dict .n0 [(['m'], .str ['V'])]]])], .ok ()) := by
   decide
 
-/-- C03-c: `[new()]` directly below a list that is an element of a plain `list` raises `TypeError`
-(`parent['[0]']` is an xpath lookup only on an `n0list`) -/
-theorem C03_new_in_plain_list_cex :
+/-- former witness of C03-c: `[new()]` directly below a list that is an element of a plain `list` appends -/
+theorem C03_new_in_plain_list_ok :
     setItem 40 (.dict .n0 [(['x'], .list .plain [.list .plain []])])
         ['x', '[', '0', ']', '[', 'n', 'e', 'w', '(', ')', ']'] (.str ['V'])
-      = (.dict .n0 [(['x'], .list .plain [.list .plain []])], .error .TypeError) := by
+      = (.dict .n0 [(['x'], .list .plain [.list .plain [.str ['V']]])], .ok ()) := by
+  decide
+
+/-- the former finding C03-d: the search no longer converts the single value `k` before `_add` refuses
+`x[5]` — the tree is exactly the one before the call (fix C04-a; `_add` converts only when it succeeds) -/
+theorem C03_refused_no_wrap :
+    setItem 40 (.dict .n0 [(['k'], .int 1)]) ['k', '[', 'n', 'e', 'w', '(', ')', ']', '/', 'x', '[', '5', ']'] (.str ['V'])
+      = (.dict .n0 [(['k'], .int 1)], .error .SyntaxError) := by
+  decide
+/-- … while the honoured creation on the same name converts and appends -/
+example : setItem 40 (.dict .n0 [(['k'], .int 1)]) ['k', '[', 'n', 'e', 'w', '(', ')', ']', '/', 'x'] (.str ['V'])
+      = (.dict .n0 [(['k'], .list .n0 [.int 1, .dict .n0 [(['x'], .str ['V'])]])], .ok ()) := by
   decide
 
 /-! ## Non-vacuity: the theorems instantiated on concrete trees (explicit char lists) -/
@@ -424,7 +449,7 @@ example : setItem 40 exTree2 ['/', '/', 'a', '/', 'n', '/', 'm', '[', 'n', 'e', 
     (by intro x hx; simp at hx; rcases hx with rfl | rfl
         · exact ⟨pk_m, Or.inl (by decide)⟩
         · exact pk_x)
-    (by simp [GOk, CStep.isName]) rfl (by decide) (by decide)
+    rfl (by decide) (by decide)
 
 /-- `d['//a/k[new()]/x/l[0]'] = 5`: wrap, name, fresh one-element list (`C03_create_partial`) -/
 example : setItem 40 exTree2 ['/', '/', 'a', '/', 'k', '[', 'n', 'e', 'w', '(', ')', ']', '/', 'x', '/', 'l', '[', '0', ']'] (.int 5)
@@ -435,7 +460,7 @@ example : setItem 40 exTree2 ['/', '/', 'a', '/', 'k', '[', 'n', 'e', 'w', '(', 
     (by intro x hx; simp at hx; rcases hx with rfl | rfl
         · exact pk_x
         · exact ⟨pk_l, Or.inr rfl⟩)
-    (by simp [GOk, CStep.isName]) rfl (by decide) (by decide)
+    rfl (by decide) (by decide)
 
 /-- read-back of `d['//a/k[new()]/x/l[0]'] = 5` through `'//a/k[last()]/x/l[0]'` (`C03_read_back`: wrap,
 name, fresh one-element list) -/
@@ -479,10 +504,10 @@ example : getItem 40 (.dict .n0 [(['a'], .dict .n0 [(['l'], .list .n0 [.int 1]),
         · exact np 'x')
     rfl (by decide) (by decide)
 
-/-- outside the honoured grammar the unrestricted `C03_read_back_stmt` fails (at fuel 40): after the
-silent misplacement of C03-b (`C03_misplaced_cex`) the value does not read back -/
-example : (getItem 40 (.dict .n0 [(['a'], .dict .n0 []), (['c'], .list .n0 [.none, .list .n0 [.str ['V']]])])
-      (replace sNew sLast ['c', '[', 'n', 'e', 'w', '(', ')', ']', '[', '0', ']', '/', 'm'])).2 ≠ .ok (.str ['V']) := by
+/-- a path with a later bare index (`c[new()][0]/m`, the former witness of C03-b): the value now reads back
+through `c[last()][0]/m` -/
+example : (getItem 40 (.dict .n0 [(['a'], .dict .n0 []), (['c'], .list .n0 [.list .n0 [.dict .n0 [(['m'], .str ['V'])]]])])
+      (replace sNew sLast ['c', '[', 'n', 'e', 'w', '(', ')', ']', '[', '0', ']', '/', 'm'])).2 = .ok (.str ['V']) := by
   decide
 
 /-- lists inside lists: `x` is an `n0list` holding an `n0list`, `p` a plain list holding a plain list -/
@@ -490,17 +515,23 @@ def exTree3 : Val :=
   .dict .n0 [(['x'], .list .n0 [.list .n0 [.int 1]]), (['p'], .list .plain [.list .plain []])]
 theorem pk_p : PlainKey ['p'] := ⟨by simp, by decide, by simp⟩
 
-/-- `d['//x[0][new()]'] = 5` appends to the inner list (`C03_append_new_in_n0list`) -/
+/-- `d['//x[0][new()]'] = 5` appends to the inner list (`C03_append_in_list`, enclosing `n0list`) -/
 example : setItem 40 exTree3 ['/', '/', 'x', '[', '0', ']', '[', 'n', 'e', 'w', '(', ')', ']'] (.int 5)
     = (.dict .n0 [(['x'], .list .n0 [.list .n0 [.int 1, .int 5]]), (['p'], .list .plain [.list .plain []])], .ok ()) :=
-  C03_append_new_in_n0list .n0 _ [.key ['x']] 0 [.list .n0 [.int 1]] .n0 [.int 1] [] (.int 5) _ 40 ⟨pk_x, trivial⟩
-    rfl rfl (by simp) trivial (by decide) (by decide)
+  C03_append_in_list .n0 _ [.key ['x']] 0 .n0 [.list .n0 [.int 1]] .n0 [.int 1] sNew [] (.int 5) _ 40 ⟨pk_x, trivial⟩
+    rfl rfl (Or.inl rfl) (by simp) trivial (by decide) (by decide)
 
-/-- `d['//p[0][0]'] = 5` (`len = 0`) appends below a *plain* list (`C03_len_in_list`) -/
+/-- `d['//p[0][0]'] = 5` (`len = 0`) appends below a *plain* list (`C03_append_in_list`) -/
 example : setItem 40 exTree3 ['/', '/', 'p', '[', '0', ']', '[', '0', ']'] (.int 5)
     = (.dict .n0 [(['x'], .list .n0 [.list .n0 [.int 1]]), (['p'], .list .plain [.list .plain [.int 5]])], .ok ()) :=
-  C03_len_in_list .n0 _ [.key ['p']] 0 .plain [.list .plain []] .plain [] [] (.int 5) _ 40 ⟨pk_p, trivial⟩
-    rfl rfl (by simp) trivial (by decide) (by decide)
+  C03_append_in_list .n0 _ [.key ['p']] 0 .plain [.list .plain []] .plain [] ['0'] [] (.int 5) _ 40 ⟨pk_p, trivial⟩
+    rfl rfl (Or.inr (by decide)) (by simp) trivial (by decide) (by decide)
+
+/-- `d['//p[0][new()]'] = 5`: `[new()]` below an element of a *plain* list (the former finding C03-c) -/
+example : setItem 40 exTree3 ['/', '/', 'p', '[', '0', ']', '[', 'n', 'e', 'w', '(', ')', ']'] (.int 5)
+    = (.dict .n0 [(['x'], .list .n0 [.list .n0 [.int 1]]), (['p'], .list .plain [.list .plain [.int 5]])], .ok ()) :=
+  C03_append_in_list .n0 _ [.key ['p']] 0 .plain [.list .plain []] .plain [] sNew [] (.int 5) _ 40 ⟨pk_p, trivial⟩
+    rfl rfl (Or.inl rfl) (by simp) trivial (by decide) (by decide)
 
 /-- `d['//x[0][new()]/m'] = 5`: bare `[new()]` first step followed by a name (`C03_create`; the
 enclosing list is an `n0list`) -/
@@ -508,13 +539,8 @@ example : setItem 40 exTree3 ['/', '/', 'x', '[', '0', ']', '[', 'n', 'e', 'w', 
     = (.dict .n0 [(['x'], .list .n0 [.list .n0 [.int 1, .dict .n0 [(['m'], .int 5)]]]),
         (['p'], .list .plain [.list .plain []])], .ok ()) :=
   C03_create .n0 _ [.key ['x'], .idx 0] (.list .n0 [.int 1]) _ (.idx ['n', 'e', 'w', '(', ')']) [.name ['m']] (.int 5) _ 40
-    ⟨pk_x, trivial⟩ rfl trivial (by intro x hx; simp at hx; subst hx; exact pk_m) (by simp [GOk, CStep.isName])
-    rfl (by decide)
-    (by
-      rintro _ ⟨q0, i, ys, hq, hg⟩
-      obtain ⟨rfl, hi⟩ := List.append_inj' (show [Seg.key ['x']] ++ [Seg.idx 0] = q0 ++ [Seg.idx i] from hq) rfl
-      simp [getAt, child, lookup] at hg)
-    (by decide)
+    ⟨pk_x, trivial⟩ rfl trivial (by intro x hx; simp at hx; subst hx; exact pk_m) (by simp [GW, CStep.isName])
+    rfl (by decide) (by decide)
 
 /-- … and its read-back through `'//x[0][last()]/m'` (`C03_read_back_any`) -/
 example : getItem 40 (.dict .n0 [(['x'], .list .n0 [.list .n0 [.int 1, .dict .n0 [(['m'], .int 5)]]]),
@@ -534,18 +560,22 @@ example : getItem 40 (.dict .n0 [(['x'], .list .n0 [.list .n0 [.int 1, .dict .n0
 example : setItem 40 exTree3 ['/', '/', 'x', '[', 'n', 'e', 'w', '(', ')', ']'] (.int 5)
     = (.dict .n0 [(['x'], .list .n0 [.list .n0 [.int 1], .int 5]), (['p'], .list .plain [.list .plain []])], .ok ()) :=
   C03_create .n0 _ [.key ['x']] (.list .n0 [.list .n0 [.int 1]]) _ (.idx ['n', 'e', 'w', '(', ')']) [] (.int 5) _ 40
-    ⟨pk_x, trivial⟩ rfl trivial (by simp) trivial rfl (by decide)
-    (by
-      rintro _ ⟨q0, i, ys, hq, _⟩
-      have := (List.append_inj' (show [] ++ [Seg.key ['x']] = q0 ++ [Seg.idx i] from hq) rfl).2
-      cases this)
-    (by decide)
+    ⟨pk_x, trivial⟩ rfl trivial (by simp) trivial rfl (by decide) (by decide)
 
-/-- `d['//p[0][new()]'] = 5` raises: the general form of C03-c on this tree (`C03_new_in_plain_list_raises`) -/
-example : setItem 40 exTree3 ['/', '/', 'p', '[', '0', ']', '[', 'n', 'e', 'w', '(', ')', ']'] (.int 5)
-    = (exTree3, .error .TypeError) :=
-  C03_new_in_plain_list_raises .n0 _ [.key ['p']] 0 [.list .plain []] .plain [] [] (.int 5) 40 ⟨pk_p, trivial⟩
-    rfl rfl (by simp) (by decide)
+/-- `d['//a/n[new()][new()]/m[0][0]'] = 5`: element-creating steps following one another, named and bare
+(`C03_create` on a path that findings C03-a/C03-b excluded) -/
+example : setItem 40 exTree2
+      ['/', '/', 'a', '/', 'n', '[', 'n', 'e', 'w', '(', ')', ']', '[', 'n', 'e', 'w', '(', ')', ']', '/', 'm', '[', '0', ']', '[', '0', ']'] (.int 5)
+    = (.dict .n0 [(['a'], .dict .n0 [(['l'], .list .n0 [.int 1]), (['k'], .str ['s']),
+        (['n'], .list .n0 [.list .n0 [.dict .n0 [(['m'], .list .n0 [.list .n0 [.int 5]])]]])])], .ok ()) :=
+  C03_create .n0 _ [.key ['a']] (.dict .n0 [(['l'], .list .n0 [.int 1]), (['k'], .str ['s'])]) _
+    (.elem ['n'] ['n', 'e', 'w', '(', ')']) [.idx ['n', 'e', 'w', '(', ')'], .elem ['m'] ['0'], .idx ['0']] (.int 5) _ 40
+    ⟨pk_a, trivial⟩ rfl pk_n
+    (by intro x hx; simp at hx; rcases hx with rfl | rfl | rfl
+        · exact Or.inl (by decide)
+        · exact ⟨pk_m, Or.inr rfl⟩
+        · exact Or.inr rfl)
+    (by simp [GW, CStep.isName, CStep.isIdx]) rfl (by decide) (by decide)
 
 /-- creations the code honours, evaluated directly (relative spellings as a user writes them) -/
 example : setItem 40 exTree ['a', '/', 'n', '/', 'm'] (.int 5)
